@@ -224,13 +224,12 @@ Theorem C12_non_detection_spec : forall (cfg : sensing_config) (gts : list gt_ob
   (forall areas, manager_crop (fun p => p) cfg gts cloud areas =
      map (fun area => filter (fun p => selected area true p && outside_all (fun p => p) cfg gts p) cloud) areas).
 Proof.
-  intros cfg gts cloud pcs. unfold evaluate_frame.
-  destruct (eval_detection cfg cloud (indexed gts)) as [[su fa] wa]. cbn.
-  split; [intros p; apply (non_detection_spec (fun p => p))|].
-  split; [apply non_detection_shape|].
-  split; [intros p; apply (outside_all_spec (fun p => p))|].
-  split; [intros pc; apply crop_outside_idempotent|].
-  intros areas. apply manager_crop_spec.
+  intros cfg gts cloud pcs. cbv zeta. rewrite fr_nondet_eval.
+  split; [intros p; exact (non_detection_spec (fun p => p) cfg gts pcs p)|].
+  split; [exact (non_detection_shape (fun p => p) cfg gts pcs)|].
+  split; [intros p; exact (outside_all_spec (fun p => p) cfg gts p)|].
+  split; [intros pc; exact (crop_outside_idempotent (fun p => p) cfg gts pc)|].
+  intros areas. exact (manager_crop_spec (fun p => p) cfg gts cloud areas).
 Qed.
 Print Assumptions C12_non_detection_spec.
 
